@@ -659,3 +659,37 @@ def r28(text, ctx):
         return 'verif_str_into_arc(%s)' % m.group(1)
     out = re.sub(r'("(?:[^"\\]|\\.)*")\s*\.into\(\)', sub, text)
     return out, n
+
+
+@rule('R29', '`#[derive(Clone, ..)]` on a struct -> Clone removed from the derive list and an explicit `impl Clone` with external_body fieldwise clone and the assumed spec `r == *self` '
+             '(Verus gives derived non-Copy Clone impls no specification; the derive expansion is exactly the fieldwise clone)')
+def r29(text, ctx):
+    if '\x00' in text:
+        return text, 0
+    m = re.search(r'#\s*\[\s*derive\s*\(([^)]*)\)\s*\]', text)
+    sm = re.search(r'\bstruct\s+([A-Za-z0-9_]+)\s*\{', text)
+    if not m or not sm:
+        return text, 0
+    traits = [t.strip() for t in m.group(1).split(',') if t.strip()]
+    if 'Clone' not in traits or 'Copy' in traits:
+        return text, 0
+    rest = [t for t in traits if t != 'Clone']
+    new_attr = ('#[derive(%s)]' % ', '.join(rest)) if rest else ''
+    text = text[:m.start()] + new_attr + text[m.end():]
+    name = sm.group(1)
+    sm = re.search(r'\bstruct\s+([A-Za-z0-9_]+)\s*\{', text)
+    toks = lex(text)
+    # field names: idents followed by ':' at depth 1 inside the struct braces
+    fields = []
+    depth = 0
+    for i, t in enumerate(toks):
+        if t.text == '{':
+            depth += 1
+        elif t.text == '}':
+            depth -= 1
+        elif depth == 1 and t.kind == 'ident' and i + 1 < len(toks) and toks[i + 1].text == ':' and toks[i - 1].text in ('{', ',', 'pub', ')'):
+            fields.append(t.text)
+    body = ', '.join('%s: self.%s.clone()' % (f, f) for f in fields)
+    impl = ('\nimpl Clone for %s {\n    #[verifier::external_body]\n    fn clone(&self) -> (r: Self)\n        ensures r == *self\n    { %s { %s } }\n}\n'
+            % (name, name, body))
+    return text + impl, 1
